@@ -37,6 +37,7 @@ func init() {
 	register("C06", false, checkC06)
 	register("C12", true, checkC12)
 	register("C11", true, checkC11)
+	register("C10", true, checkC10)
 }
 
 func main() {
